@@ -146,3 +146,53 @@ def _set_iteration_rows(repo):
 table('set-iteration-order-independence', props=('C20',), rows=_set_iteration_rows,
       reads=('sc3/synth/synthdef.py', 'sc3/synth/ugen.py'),
       note='UGen.__hash__ is id-based: set order depends on allocation history')
+
+
+# ---- lock discipline: the build context is only written while the build lock is held ---
+def _context_writes_rows(repo):
+    rows = []
+    for root, _, files in os.walk(os.path.join(repo, 'sc3')):
+        for fn in files:
+            if not fn.endswith('.py'):
+                continue
+            path = os.path.join(root, fn)
+            rel = os.path.relpath(path, repo)
+            tree = ast.parse(open(path).read())
+            parents = {}
+            for node in ast.walk(tree):
+                for ch in ast.iter_child_nodes(node):
+                    parents[ch] = node
+            for node in ast.walk(tree):
+                if isinstance(node, ast.Assign) and any(
+                        isinstance(t, ast.Attribute) and t.attr == '_current_synthdef' for t in node.targets):
+                    # initialisation at class/module level (no enclosing function) is not a build
+                    p_ = node
+                    in_func = False
+                    locked = False
+                    while p_ in parents:
+                        p_ = parents[p_]
+                        if isinstance(p_, ast.With) and any(
+                                ast.unparse(i.context_expr).endswith('_def_build_lock') for i in p_.items):
+                            locked = True
+                        if isinstance(p_, (ast.FunctionDef, ast.AsyncFunctionDef)):
+                            in_func = True
+                            fname = p_.name
+                            break
+                    if not in_func:
+                        continue
+                    if fname in ('_init', '__init__', 'reset', '_setup'):
+                        # process initialisation, before any build can run
+                        continue
+                    rows.append([rel, fname, locked, node.lineno])
+    out, seen = [], {}
+    for rel, fname, locked, line in sorted(rows, key=lambda r: (r[0], r[3])):
+        k = seen[(rel, fname)] = seen.get((rel, fname), 0) + 1
+        out.append(('%s:%s write #%d of the build context is under the build lock' % (rel, fname, k),
+                    locked, {'line': line}))
+    return out
+
+
+table('build-context-lock-discipline', props=('C20',), rows=_context_writes_rows,
+      reads=('sc3/**/*.py',),
+      note='isolation of concurrent builds rests on every write of the context being inside '
+           '`with main._def_build_lock:`')
